@@ -12,6 +12,7 @@ namespace Pyham
 structure PFrame where
   depth : Nat
   did : Nat
+  size : Nat := 0          -- number of members the DuplicationNode had when this group was opened
 deriving Repr, Inhabited
 
 /-- a DuplicationNode while the file is being read -/
@@ -249,12 +250,15 @@ def pgOpen (len : Nat) (pgid : Option String) (ps : PS) : PS :=
     match ps.pstack with
     | f :: _ => if f.depth == len then (f.did, ps) else newDup ps pgid
     | [] => newDup ps pgid
-  { ps with pstack := { depth := len, did := did } :: ps.pstack, inPG := some len, cur := some did }
+  let size := match ps.getDup did with | some b => b.members.length | none => 0
+  { ps with pstack := { depth := len, did := did, size := size } :: ps.pstack, inPG := some len, cur := some did }
 
 def pgClose (kids : List Node) (ps : PS) : Except Err PS :=
   match ps.pstack with
   | [] => .error .index
   | f :: fs => do
+    let some b := ps.getDup f.did | .error .unmodelled
+    if b.members.length == f.size then .error .value            -- "empty paralogGroup"
     let ps ← setMRCA kids { ps with pstack := fs } f.did
     match fs with
     | g :: _ => .ok { ps with inPG := some g.depth, cur := some g.did }
